@@ -84,6 +84,16 @@ def gen(tier):
         if U.combining(chr(c)):
             add("every-mark", "a" + chr(c) + "\u0301"); add("every-mark", "\u1ea1" + chr(c))
             if tier != "quick": add("every-mark", "\u1100" + chr(c) + "\u1161"); add("every-mark", "\u00e9" + chr(c) + "\u0327")
+    # 6b. two runs of marks in one string, the first long enough to move the collection buffer to the heap, the second to grow it again
+    for n1 in (9, 10, 11, 12, 13):
+        for n2 in (14, 15, 16, 17, 20, 27):
+            r1 = "".join(chr(MARKS[i % len(MARKS)]) for i in range(n1)); r2 = "".join(chr(MARKS[(i * 3 + 1) % len(MARKS)]) for i in range(n2))
+            add("two-mark-runs", "x" + r1 + "y" + r2); add("two-mark-runs", "\u1100" + r2 + "z" + r1 + "w" + r2)
+    # 6c. the second half of every composing pair moved to another plane (same low 16 bits): must not compose
+    for a, b, _ in pairs:
+        for k in range(1, 17):
+            c2 = ord(b) + k * 0x10000
+            if c2 < 0x110000 and assigned(c2): add("pair-second-in-other-plane", a + chr(c2))
     # 7. long inputs: beyond the 128-element stack scratch of wcsnorm_s and with long mark runs
     for n in (1, 30, 31, 32, 33, 62, 63, 64, 124, 125, 126, 127, 128, 129, 130, 200, 450):     # RSIZE_MAX_WSTR is 1024
         add("long", "\u00e9" * n); add("long", "e\u0301" * n); add("long", "a" + "\u0301\u0323" * n); add("long", "\uac01" * min(n, 300))
@@ -132,7 +142,7 @@ def run(tier, deadline):
     if tier != "quick" and os.path.getsize(vf) > 50e6:
         os.unlink(vf)        # several hundred MB; regenerated on demand (replay does so)
     cov = {"evaluations": tot["calls"], "distinct_nontrivial": nvec + 0x110000,
-           "rule": f"reference = Python unicodedata (UCD {U.unidata_version}); normalization vectors: every assigned code point alone; every canonical decomposition (one level and full) to be recomposed; every Hangul L V, L V T and LV T; every composing pair with a mark of 6 classes between, after and before its halves, doubled, and with a starter between; every sequence of up to {3 if tier == 'quick' else 6} marks over an alphabet covering classes 1 7 10 202 216 220 230 230 240 after 4 starters; every string of up to {6 if tier == 'quick' else 10} elements over {{a, U+0301, U+0323, U+0327}}; every combining mark of the UCD in two (thorough: four) contexts; inputs of 1..600 clusters around the 128-element scratch size. Each vector runs in NFD and NFC mode with dmax = needed, needed+16 and needed-1 in a canaried destination; oracle: result equals the reference form, *lenp equals its length, terminator inside dmax, a second normalization of the result is the identity, a too small dmax fails with dest cleared, nothing written beyond dmax. Folding: for every code point 0..10FFFF the number of characters towfc_s stores equals max(1, iswfc) and its positive return value; wcsfc_s of every assigned one-character string equals NFD(full case folding). Values above 10FFFF and surrogates, alone and embedded in four shapes, through wcsnorm_s, wcsfc_s, iswfc, towfc_s: no fault, values above 10FFFF rejected.",
+           "rule": f"reference = Python unicodedata (UCD {U.unidata_version}); normalization vectors: every assigned code point alone; every canonical decomposition (one level and full) to be recomposed; every Hangul L V, L V T and LV T; every composing pair with a mark of 6 classes between, after and before its halves, doubled, and with a starter between; every sequence of up to {3 if tier == 'quick' else 6} marks over an alphabet covering classes 1 7 10 202 216 220 230 230 240 after 4 starters; every string of up to {6 if tier == 'quick' else 10} elements over {{a, U+0301, U+0323, U+0327}}; every combining mark of the UCD in two (thorough: four) contexts; two runs of 9..13 and 14..27 marks in one string; the second half of every composing pair replaced by the assigned code points with the same low 16 bits in other planes; inputs of 1..600 clusters around the 128-element scratch size. Each vector runs in NFD and NFC mode with dmax = needed, needed+16, needed-1 and (longer inputs) more than twice the result in a canaried destination, in a forked child so that a call that corrupts the harness is attributed; oracle: result equals the reference form, *lenp equals its length, terminator inside dmax, nothing stale behind the terminator, a second normalization of the result is the identity, a too small dmax fails with dest cleared, nothing written beyond dmax. Folding: for every code point 0..10FFFF the number of characters towfc_s stores equals max(1, iswfc) and its positive return value; wcsfc_s of every assigned one-character string equals NFD(full case folding). Values above 10FFFF and surrogates, alone and embedded in four shapes, through wcsnorm_s, wcsfc_s, iswfc, towfc_s: no fault, values above 10FFFF rejected.",
            "samples": ["single 1E0A -> NFD 44,307 / NFC 1E0A", "pair-mark-between 1100,0301,1161 (must stay uncomposed)", "marks-3 61,0345,0323,0334", "hangul-LV+T AC00,11A8", "fold 1FC6: iswfc vs towfc_s", "range 110000 inside a,<cp>,0301"],
            "normalization_vectors": nvec, "jobs_timed_out": len(timed_out)}
     return common.finish("C17", tier, t0, cov, violations,
@@ -151,4 +161,7 @@ def replay(kv, quiet=False):
     if c[0] == "fold": c[1] = ff
     r = subprocess.run([BIN, "replay"] + c, capture_output=True, text=True, errors="replace", env=dict(os.environ, CAT_LIB=vbuild.build("prod")))
     if not quiet: sys.stdout.write(r.stdout); sys.stderr.write(r.stderr)
+    if r.returncode not in (0, 1) and "harness-killed" in kv.get("signature", ""):
+        if not quiet: print(f"VERDICT violation: the replaying process itself was killed by the call (exit status {r.returncode})")
+        return 1
     return r.returncode
